@@ -603,7 +603,7 @@ func c14Leaves(p *Prog, c *Check) {
 			if !has {
 				// sibling module codec (encodePubkey inside encodeECIESPublicKey)
 				if i2, ok2 := codecPairs[lastName2(nm)]; ok2 && strings.Contains(nm, "shutterevents.") {
-					if len(dfind("keyper/shutterevents."+i2)) == 0 {
+					if len(dfind("keyper/shutterevents."+i2)) == 0 && !inlinesCodec(p, dcalls, i2) {
 						diffs = append(diffs, enc+" uses "+lastName2(nm)+" but "+dec+" does not use "+i2)
 					}
 					used = append(used, lastName2(nm)+"↔"+i2)
@@ -655,6 +655,21 @@ func c14Leaves(p *Prog, c *Check) {
 								}
 							}
 						}
+						if !nonEmptyEncoders[en] && isCodecName(en) {
+							// a scalar codec of the package: never empty if what it returns is
+							if sf, err := p.Func("keyper/shutterevents." + lastName2(en)); err == nil {
+								all := len(returnsOf(sf)) > 0
+								for _, r := range returnsOf(sf) {
+									rc, isC := r.Results[0].(*ssa.Call)
+									if !isC || !nonEmptyEncoders[callName(rc)] {
+										all = false
+									}
+								}
+								if all {
+									en = callName(returnsOf(sf)[0].Results[0].(*ssa.Call))
+								}
+							}
+						}
 						if !nonEmptyEncoders[en] {
 							diffs = append(diffs, fmt.Sprintf("%s joins element encodings produced by %s, which can be empty: a one-element list holding an empty value and the empty list become indistinguishable", enc, siteTag.ReplaceAllString(et.s, "")))
 						} else {
@@ -689,7 +704,7 @@ func c14Leaves(p *Prog, c *Check) {
 					if !only {
 						continue
 					}
-					if len(dfind("keyper/shutterevents."+sdec)) == 0 {
+					if len(dfind("keyper/shutterevents."+sdec)) == 0 && !inlinesCodec(p, dcalls, sdec) {
 						diffs = append(diffs, fmt.Sprintf("the elements of %s are encoded exactly like %s encodes a single value, but %s does not decode them with %s: element strings %s rejects as malformed are accepted inside a list", enc, senc, dec, sdec, sdec))
 					} else {
 						used = append(used, "elements decoded by "+sdec)
@@ -708,6 +723,15 @@ func c14Leaves(p *Prog, c *Check) {
 					continue
 				}
 				split := stripConv(gfi.T(sc.Common().Args[0]))
+				// cut the edges on which the input is known empty and the block that splits: a successful
+				// return that is still reachable answers for a non-empty input without splitting it
+				cut := gfi.edgesWhere(func(a Atom) bool {
+					if a.Op == "==" && stripConv(a.L).s == split.s && a.R.K == TConst && a.R.s == `""` {
+						return true
+					}
+					return (a.Op == "==" || a.Op == "<=") && a.L.K == TLen && stripConv(a.L.Sub[0]).s == split.s && a.R.s == "0"
+				})
+				avoid := map[*ssa.BasicBlock]bool{sc.Block(): true}
 				for _, r := range returnsOf(g) {
 					nr := len(r.Results)
 					if nr == 0 {
@@ -716,19 +740,10 @@ func c14Leaves(p *Prog, c *Check) {
 					if isErrorType(r.Results[nr-1].Type()) && gfi.errIsNil(r.Results[nr-1], r, 0) == no {
 						continue
 					}
-					if instrDominates(sc, r) {
+					if r.Block() == sc.Block() || instrDominates(sc, r) {
 						continue
 					}
-					okE := false
-					for _, a := range gfi.FactsAt(r) {
-						if a.Op == "==" && stripConv(a.L).s == split.s && a.R.K == TConst && a.R.s == `""` {
-							okE = true
-						}
-						if (a.Op == "==" || a.Op == "<=") && a.L.K == TLen && stripConv(a.L.Sub[0]).s == split.s && a.R.s == "0" {
-							okE = true
-						}
-					}
-					if !okE {
+					if g.Blocks[0] != sc.Block() && !avoid[r.Block()] && reachAvoiding(g.Blocks[0], r.Block(), cut, avoid) {
 						diffs = append(diffs, fmt.Sprintf("%s returns without error before splitting its input on a path not restricted to the empty string (%s): an encoding %s emits for a non-empty list is decoded as another list", shortFn(g), p.siteOf(r), enc))
 					} else {
 						used = append(used, "early success only for \"\"")
@@ -958,4 +973,30 @@ func eventInvariants(p *Prog, c *Check) map[string][]Atom {
 		}
 	}
 	return out
+}
+
+// inlinesCodec: the decoder makes every library call the sibling decoder makes (its body was inlined).
+func inlinesCodec(p *Prog, dcalls []effCall, sibling string) bool {
+	sf, err := p.Func("keyper/shutterevents." + sibling)
+	if err != nil {
+		return false
+	}
+	sc, _ := effCalls(p, sf)
+	n := 0
+	for _, x := range sc {
+		if strings.HasPrefix(x.name, "builtin:") || strings.Contains(x.name, "errors.") || strings.HasPrefix(x.name, "fmt.") {
+			continue
+		}
+		n++
+		found := false
+		for _, d := range dcalls {
+			if d.name == x.name {
+				found = true
+			}
+		}
+		if !found {
+			return false
+		}
+	}
+	return n > 0
 }
